@@ -204,3 +204,13 @@ package actionlint
 //@ func (*Error).PrettyPrint
 //@   props C16
 //@   body_calls (*Error).getIndicator iff len(source) > 0 && e.Line > 0 && hasline(source, e.Line) && len(lineof(source, e.Line)) >= e.Column - 1
+
+// C16: the fields handed to a -format template (and to {{json .}}) are the fields of the diagnostic; when no
+// caret line is shown the end column is the column; the header line of Error() shows the fields in the order
+// file:line:col: message [kind] (errfmt names that rendering: a function of the five fields only)
+//@ func (*Error).GetTemplateFields
+//@   ensures [C16] result != nil && result.Message == e.Message && result.Filepath == e.Filepath && result.Line == e.Line && result.Column == e.Column && result.Kind == e.Kind
+//@   ensures [C16] result.Snippet == "" ==> result.EndColumn == e.Column
+//@ func (*Error).Error
+//@   props C16
+//@   at_call fmt.Sprintf: format == "%s:%d:%d: %s [%s]" && len(a) == 5 && a[0] == iface(e.Filepath) && a[1] == iface(e.Line) && a[2] == iface(e.Column) && a[3] == iface(e.Message) && a[4] == iface(e.Kind)
